@@ -330,3 +330,8 @@ func Hidden(f func()) {
 
 // Yield is a scheduling point without an object (harness callbacks: logger, send, backend).
 func Yield() { Point(OpAtomic, KNone, nil, nil) }
+
+// HideBegin / HideEnd bracket shim bookkeeping (lock-state atomics) so that it creates no
+// happens-before edges for the race detector: only the real primitive's edges count.
+func HideBegin() { raceDisable() }
+func HideEnd()   { raceEnable() }
